@@ -453,6 +453,9 @@ def b_hashed_list_change(g, n, n1, n2):
             hp = HashedPartitioner("t", a)
             for h in (0, 1, 5, 7, 2**31 + 3, 2**32 - 1):
                 hv[0] = h
+                # the same key first with the list the partitioner was built with, then with the new list
+                if n1 and hp.partition(key, a) != a[(h & 0x7FFFFFFF) % n1]:
+                    return "result is not supplied_list[(hash & 0x7fffffff) % len(supplied_list)] (original list)"
                 try:
                     r = hp.partition(key, b)
                 except IndexError:
